@@ -3,69 +3,87 @@
 #![allow(dead_code, unused_imports, unused_variables)]
 use super::*;
 use crate::patch::verif_h::{Pool, mk_hunk, Shape, mk_report, mk_named_fp};
-use crate::patch::unified::parser::verif_h::{verif_parse_hunks, Sink};
+use crate::patch::unified::parser::verif_h::Sink;
 
-/// H one-line-replacement hunks ("-x +y", no context) at stated lines 2, 12, 22, ...; `applied[h]` from the instance;
-/// line bytes symbolic.  Pool lines are 1 byte without terminator, so each written line is followed by the
-/// "\\ No newline" tag: the parser must give back exactly those bytes.
-pub fn rej_case<const H: usize>(applied: [bool; H]) {
-    let pool = Pool::any();
+/// H one-line-replacement hunks ("-x +y", no context) at stated lines 2, 12, 22, ...; `applied[h]` from the instance; line
+/// bytes symbolic (2-byte lines: letter + newline).  No parser is involved (reading a buffer of symbolic layout back through
+/// the nom parser does not finish): the written bytes are scanned as records.  Expected: nothing at all when every hunk
+/// applied; otherwise the file header, then for each FAILED hunk, in order: its header line (canned text: formatting is not
+/// executed, the numbers are C12's subject), then its lines as records `-x` `+y` (or one ` x` record when x == y).
+/// `distinct`: assume x != y per hunk (fixes the layout; the instance without it has one hunk).
+pub fn rej_case<const H: usize>(applied: [bool; H], distinct: bool) {
+    let raw: [[u8; 2]; H] = kani::any();
+    let mut lo = [[0u8; 2]; H];
+    let mut ln = [[0u8; 2]; H];
     let mut k = 0;
-    while k < 2 * H { kani::assume(pool.b[k] != b'\n'); k += 1; }
-    // removed and added line of a hunk differ (else the writer would emit one context line): fixes the layout
+    while k < H {
+        kani::assume(raw[k][0] != b'\n' && raw[k][1] != b'\n');
+        if distinct { kani::assume(raw[k][0] != raw[k][1]); }
+        lo[k] = [raw[k][0], b'\n'];
+        ln[k] = [raw[k][1], b'\n'];
+        k += 1;
+    }
+    // flat buffer for the slices handed to the hunks (nested arrays are mis-read by CBMC 6.11 through slice pointers, see parser_h.rs)
+    let mut flat = [b'\n'; 12];
+    assert!(H <= 3, "verif-infra: at most 3 hunks");
     k = 0;
-    while k < H { kani::assume(pool.b[2 * k] != pool.b[2 * k + 1]); k += 1; }
+    while k < H { flat[4 * k] = lo[k][0]; flat[4 * k + 2] = ln[k][0]; k += 1; }
     let mut hunks: Vec<TextHunk> = Vec::with_capacity(H);
     let mut lines = [0isize; H];
     let mut h = 0;
     while h < H {
         lines[h] = 2 + 10 * h as isize;
-        hunks.push(mk_hunk(&pool, 2 * h, Shape { p: 0, r: 1, a: 1, s: 0 }, lines[h], lines[h]));
+        let mut hk: TextHunk = Hunk::new(lines[h], lines[h], &b""[..]);
+        hk.remove.content.push(&flat[4 * h..4 * h + 2]);
+        hk.add.content.push(&flat[4 * h + 2..4 * h + 4]);
+        hunks.push(hk);
         h += 1;
     }
     let fp = mk_named_fp("f", hunks);
     let rep = mk_report(&applied, &lines, PatchDirection::Forward);
     // canned write! outputs, in call order: "diff --git f f\n", "--- f\n", "+++ f\n", then one hunk header per failed hunk
     let hdrs: [&'static [u8]; 3] = [b"@@ -3,1 +3,1 @@", b"@@ -13,1 +13,1 @@", b"@@ -23,1 +23,1 @@"];
-    let mut out = Sink::<400>::new();
-    out.k = 0;
-    out.canned = [b"diff --git f f\n", b"--- f\n", b"+++ f\n", &[], &[], &[], &[], &[]];
+    let mut out = Sink::<160>::with_canned([b"diff --git f f\n", b"--- f\n", b"+++ f\n", &[], &[], &[], &[], &[]]);
     let mut nf = 0;
     let mut hh = 0;
     while hh < H { if !applied[hh] { out.canned[3 + nf] = hdrs[hh]; nf += 1; } hh += 1; }
     let wr = fp.write_rej_to(&mut out, &rep);
     assert!(wr.is_ok());
     std::mem::forget(wr);
-    let mut nfailed = 0;
-    h = 0;
-    while h < H { if !applied[h] { nfailed += 1; } h += 1; }
-    if nfailed == 0 {
+    if nf == 0 {
         assert!(out.n == 0, "a reject was written although every hunk applied");
         std::mem::forget(fp); std::mem::forget(rep);
         return;
     }
     let hdr = b"diff --git f f\n--- f\n+++ f\n";
     assert!(out.n > hdr.len(), "reject file too short");
-    let mut i = 0;
-    while i < hdr.len() { assert!(out.b[i] == hdr[i], "reject file header"); i += 1; }
-    let (left, parsed) = match verif_parse_hunks(&out.b[hdr.len()..out.n]) { Some(x) => x, None => { assert!(false, "reject file does not parse"); return; } };
-    assert!(left == 0, "trailing bytes in the reject file");
-    assert!(parsed.len() == nfailed, "reject file does not hold exactly the failed hunks");
-    let mut j = 0;
+    let mut p = 0;
+    while p < hdr.len() { assert!(out.b[p] == hdr[p], "reject file header"); p += 1; }
     h = 0;
     while h < H {
         if !applied[h] {
-            let g = &parsed[j];
-            let o = &fp.hunks()[h];
-            assert!(g.remove.target_line == o.remove.target_line && g.add.target_line == o.add.target_line, "line numbers of a rejected hunk changed");
-            assert!(g.remove.content.len() == 1 && g.add.content.len() == 1, "rejected hunk changed shape");
-            assert!(g.remove.content[0] == o.remove.content[0] && g.add.content[0] == o.add.content[0], "line content of a rejected hunk changed");
-            j += 1;
+            let hd = hdrs[h];
+            assert!(p + hd.len() + 1 <= out.n, "a failed hunk is missing from the reject file");
+            let mut q = 0;
+            while q < hd.len() { assert!(out.b[p + q] == hd[q], "hunk header of a rejected hunk"); q += 1; }
+            assert!(out.b[p + q] == b'\n', "hunk header line not terminated");
+            p += hd.len() + 1;
+            assert!(p + 3 <= out.n, "rejected hunk has no lines");
+            if out.b[p] == b' ' {
+                assert!(lo[h][0] == ln[h][0] && out.b[p + 1] == lo[h][0] && out.b[p + 2] == b'\n', "line content of a rejected hunk changed");
+                p += 3;
+            } else {
+                assert!(p + 6 <= out.n, "rejected hunk is short of a line");
+                assert!(out.b[p] == b'-' && out.b[p + 1] == lo[h][0] && out.b[p + 2] == b'\n', "old-side line of a rejected hunk changed");
+                assert!(out.b[p + 3] == b'+' && out.b[p + 4] == ln[h][0] && out.b[p + 5] == b'\n', "new-side line of a rejected hunk changed");
+                p += 6;
+            }
         }
         h += 1;
     }
-    kani::cover!(true, "reject round trip done");
-    std::mem::forget(fp); std::mem::forget(rep); std::mem::forget(parsed);
+    assert!(p == out.n, "the reject file holds more than the failed hunks");
+    kani::cover!(true, "reject scan done");
+    std::mem::forget(fp); std::mem::forget(rep);
 }
 
 include!(concat!(env!("VERIF_GEN"), "/rej_inst.rs"));
